@@ -101,11 +101,20 @@ class Engine:
             st.assume(r)
         self.cover(st, "requires", self.fn.lineno)
         self.c.assume_entry_lemmas(self, st)
+        is_gen = any(isinstance(n, (ast.Yield, ast.YieldFrom)) for n in ast.walk(self.fn.node))
+        if is_gen:
+            st.env["__yield__"] = self.c.result_type.empty()
         outs = self.block(self.fn.node.body, st)
         for kind, s, payload in outs:
             if kind == NEXT:
                 kind, payload = RET, NONE
+            if is_gen and kind == RET:
+                payload = s.env["__yield__"]
             if kind == RET:
+                nexit = getattr(self, "_nexit", 0)
+                if nexit < 3:
+                    self._nexit = nexit + 1
+                    self.cover(s, f"exit{nexit}", self.fn.lineno)   # anti-vacuity: this exit's path condition must not be refutable
                 for nm, g in self.c.ensures_terms(self, s, payload):
                     self.oblige(s, f"post.{nm}", g, kind="post")
                     s.assume(g)      # clauses are cumulative: later ones may use earlier ones (each is proved first)
@@ -295,6 +304,8 @@ class Engine:
     def _assigned_names(self, stmts):
         names = set()
         for n in ast.walk(ast.Module(body=list(stmts), type_ignores=[])):
+            if isinstance(n, (ast.Yield, ast.YieldFrom)):
+                names.add("__yield__")
             if isinstance(n, ast.Name) and isinstance(n.ctx, (ast.Store, ast.Del)):
                 names.add(n.id)
             elif isinstance(n, (ast.Subscript, ast.Attribute)) and isinstance(n.ctx, ast.Store):
@@ -369,6 +380,7 @@ class Engine:
         for nm, g in lc.invariant(self, it, None):
             it.assume(g)
         it.ghost[f"head{ordn}"] = {k: v.clone() for k, v in it.heap.items()}
+        it.ghost[f"headenv{ordn}"] = dict(it.env)
         ex = it.clone()
         cv = self.truth(self.ev(s.test, it))
         it.assume(cv)
@@ -418,6 +430,7 @@ class Engine:
         for nm, g in lc.invariant(self, it, gh):
             it.assume(g)
         it.ghost[f"head{ordn}"] = {k: v.clone() for k, v in it.heap.items()}
+        it.ghost[f"headenv{ordn}"] = dict(it.env)
         ex = it.clone()
         elem = itr.pick(it, gh)           # assumes "not finished", returns current element
         it.ghost[f"loop{ordn}"] = gh      # visible to invariants of nested loops (c.outer(ordn))
@@ -453,8 +466,11 @@ class Engine:
             return _ListIter(coll)
         if isinstance(ty, TDict):
             return _DictKeysIter(coll)
-        if isinstance(ty, TEmpty):
+        if isinstance(ty, TEmpty) and ty.kind in ("list", "set", "dict"):
             return _EmptyIter()
+        r = self.reg._hook("iterate", self, st, coll, node)
+        if r is not None:
+            return r
         raise OutOfSubset(f"iteration over {ty}")
 
     # ------------------------------------------------------------------ assignment
@@ -971,6 +987,20 @@ class Engine:
             return m.getattr(self, st, base, e.attr, e)
         raise OutOfSubset(f"attribute .{e.attr} on {base.ty}")
 
+    def e_Yield(self, e, st):
+        """generator: the yielded values form a ghost output list `__yield__` (typed by the contract's result_type)"""
+        v = self.ev(e.value, st)
+        ty = self.c.result_type
+        if not isinstance(ty, TList):
+            raise OutOfSubset("yield in a function whose contract has no list result type")
+        cur = st.env.get("__yield__")
+        if cur is None:
+            cur = ty.empty()
+        v = self.coerce(v, ty.elem, st)
+        n = ty.len(cur.t)
+        st.env["__yield__"] = Val(ty, ty.mk(n + 1, z3.Store(ty.at(cur.t), n, v.t)))
+        return NONE
+
     def e_Lambda(self, e, st):
         return _Closure(e)
 
@@ -1007,7 +1037,7 @@ class _PyTuple(Val):
 
     def __init__(self, items):
         self.items = items
-        self.ty = TEmpty("pytuple")
+        self.ty = THelper("pytuple")
         self.t = None
 
 
@@ -1016,7 +1046,7 @@ class _PyList(Val):
 
     def __init__(self, items):
         self.items = items
-        self.ty = TEmpty("pylist")
+        self.ty = THelper("pylist")
         self.t = None
 
 
@@ -1037,28 +1067,28 @@ class _StrChoice(Val):
 class _Slice(Val):
     def __init__(self, lo, hi):
         self.lo, self.hi = lo, hi
-        self.ty = TEmpty("slice")
+        self.ty = THelper("slice")
         self.t = None
 
 
 class _Closure(Val):
     def __init__(self, node):
         self.node = node
-        self.ty = TEmpty("closure")
+        self.ty = THelper("closure")
         self.t = None
 
 
 class _GenExp(Val):
     def __init__(self, node):
         self.node = node
-        self.ty = TEmpty("genexp")
+        self.ty = THelper("genexp")
         self.t = None
 
 
 class _ExcVal(Val):
     def __init__(self, exc):
         self.exc = exc
-        self.ty = TEmpty("exception")
+        self.ty = THelper("exception")
         self.t = None
 
 
@@ -1074,8 +1104,11 @@ class _RaiseSignal(Exception):
 
 class _IterSpec(Val):
     """Value that knows how to be iterated (range, enumerate, zip, items(), ...)."""
-    ty = TEmpty("iterable")
+    ty = THelper("iterable")
     t = None
+
+    def __init__(self):
+        pass
 
 
 _MUTATORS = {"append", "add", "remove", "pop", "update", "extend", "discard", "clear", "sort", "insert",
